@@ -74,20 +74,21 @@ macro_rules! lazy_checks {
     }};
 }
 
-/// fold visits exactly the sequence that stepping with next yields (same items, same order), count() agrees
+/// fold visits exactly the sequence that stepping with next yields -- the same element OBJECTS (addresses), in the same
+/// order -- and count() agrees
 macro_rules! fold_checks {
     ($mk:expr, $op:expr, $am:expr, $bm:expr, $cap:expr) => {{
         let want_total = size($op, &$am, &$bm);
         let mut it = $mk;
-        let mut seq = [0u8; 16];
+        let mut seq = [0usize; 16];
         let mut total = 0usize;
         let mut i = 0usize;
         while i <= $cap {
-            if let Some(x) = it.next() { if total < 16 { seq[total] = *x; } total += 1; }
+            if let Some(x) = it.next() { if total < 16 { seq[total] = x as *const u8 as usize; } total += 1; }
             i += 1;
         }
         vf::check(total == want_total, 803);
-        let (fseq, ftotal) = $mk.fold(([0u8; 16], 0usize), |(mut s, n), x| { if n < 16 { s[n] = *x; } (s, n + 1) });
+        let (fseq, ftotal) = $mk.fold(([0usize; 16], 0usize), |(mut s, n), x| { if n < 16 { s[n] = x as *const u8 as usize; } (s, n + 1) });
         vf::check(ftotal == total, 805);
         let mut i = 0usize;
         while i < $cap { if i < total { vf::check(fseq[i] == seq[i], 805); } i += 1; }
